@@ -380,6 +380,51 @@ def check_sequences(ctx: Ctx) -> None:
             if "round_ints" in negatives:
                 has_round = any(n.endswith(".round_vect") for n in names)
                 ctx.ob("1.1-round", con, not has_round, f"branch {label} must not round but {tn} has round_vect", node=s, stmt=f"{label}: {tn} does not round")
+    # every configuration selects a branch: the selected sequences round iff rounding is requested and take normalised
+    # inputs iff the caller's inputs are normalised (the tests are boolean formulas over a few options: all their
+    # truth assignments are enumerated)
+    import itertools
+
+    def atoms_of(t, acc):
+        if t is None:
+            return
+        if isinstance(t, ast.BoolOp):
+            for v in t.values:
+                atoms_of(v, acc)
+        elif isinstance(t, ast.UnaryOp) and isinstance(t.op, ast.Not):
+            atoms_of(t.operand, acc)
+        else:
+            acc.add(norm_stmt(t))
+
+    def holds(t, env):
+        if t is None:
+            return True
+        if isinstance(t, ast.BoolOp):
+            vals = [holds(v, env) for v in t.values]
+            return all(vals) if isinstance(t.op, ast.And) else any(vals)
+        if isinstance(t, ast.UnaryOp) and isinstance(t.op, ast.Not):
+            return not holds(t.operand, env)
+        return env[norm_stmt(t)]
+
+    atoms = set()
+    for test, _ in branches:
+        atoms_of(test, atoms)
+    atoms = sorted(atoms)
+    ctx.need({"round_ints", "is_function_input_normalized"} <= set(atoms) and len(atoms) <= 5, f"the options tested by the sequence chain are not the expected ones: {atoms}")
+    summaries = []
+    for test, body in branches:
+        seq_names = {}
+        for s_ in body:
+            if isinstance(s_, ast.Assign) and isinstance(s_.targets[0], ast.Name) and s_.targets[0].id in ("func_seq", "jac_seq") and isinstance(s_.value, ast.Tuple):
+                seq_names[s_.targets[0].id] = ([dotted(e_.value if isinstance(e_, ast.Starred) else e_) or "" for e_ in s_.value.elts], s_)
+        summaries.append(seq_names)
+    for combo in itertools.product((True, False), repeat=len(atoms)):
+        env = dict(zip(atoms, combo))
+        k = next(i for i, (test, _) in enumerate(branches) if holds(test, env))
+        cfg_label = ", ".join(f"{a if len(a) < 40 else 'linear function'}={v}" for a, v in env.items())
+        for tn, (names_, s_) in summaries[k].items():
+            has_round = any(n_.endswith(".round_vect") for n_ in names_)
+            ctx.ob("1.1-round", con, has_round == env["round_ints"], f"with {cfg_label} the selected {tn} {'does not round' if not has_round else 'rounds'} the integer components: the function is then evaluated at a point that is not the (rounded) point under which the value is recorded", node=s_, stmt=f"[{cfg_label}] {tn} rounds iff round_ints")
     # constructor wiring
     ctor = [c for c in rules.method_calls(func, lambda c: call_name(c) == "ProblemFunction")]
     ctx.need(len(ctor) == 1, "_preprocess_function: ProblemFunction(...) call not found")
@@ -497,6 +542,14 @@ def check_keys(ctx: Ctx) -> None:
 def check_linear_normalize(ctx: Ctx) -> None:
     f = ctx.index.method(LF, "MDOLinearFunction", "normalize")
     con = cname(LF, "MDOLinearFunction", "normalize")
+    # the normalised twin is built from a copy: scaling the user's own coefficients in place changes the original function
+    from gv.purity import impure_writes
+
+    res, sites = impure_writes(f, params={"self"}, track_state=True)
+    for node_, p_, what in res:
+        ctx.ob("1.8-original-untouched", con, False, f"normalize: {what}: building the normalised function changes the coefficients of the user's function, whose value at the physical point is what must be returned and recorded", node=node_, stmt=f"{norm_stmt(node_, 70)} [{p_}]")
+    if not res:
+        ctx.ob("1.8-original-untouched", con, sites > 0, "no in-place write reaches the original coefficients", node=f, stmt=f"{sites} in-place site(s) examined")
     space = f.args.args[1].arg
     wheres = {}
     for s in stmts_of(f):
@@ -555,7 +608,12 @@ def check_equal_bounds(ctx: Ctx) -> None:
     from gv.props.c12 import _Prefixed
 
     ds = ctx.index.cls(DS, "DesignSpace")
-    c02.check_affine_ops(_Prefixed(ctx, "1.6-inert/"), c02.View(ctx, ds))
+    view = c02.View(ctx, ds)
+    c02.check_affine_ops(_Prefixed(ctx, "1.6-inert/"), view)
+    # the (un)normalisation the evaluation sequences go through uses cached bounds/factors: an edit of the bounds that
+    # does not invalidate them makes every later evaluation happen at the physical point of the OLD bounds (C02 2.2/2.3)
+    c02.check_protocols(_Prefixed(ctx, "1.9-current-bounds/"), view)
+    c02.check_norm_cache(_Prefixed(ctx, "1.9-current-bounds/"), view)
 
 
 def run(ctx: Ctx) -> None:
